@@ -323,7 +323,7 @@ func (ar *arena) place(n int, mode string, off int, canary float32) []float32 {
 func aligned16(s []float32) bool { return uintptr(unsafe.Pointer(&s[0]))%16 == 0 }
 
 // ---------------------------------------------------------------- value classes
-var classes = []string{"ints", "normal", "onehot", "mixed", "big", "small", "huge", "tiny", "subnormal"}
+var classes = []string{"ints", "normal", "onehot", "mixed", "parallel", "big", "small", "huge", "tiny", "subnormal"}
 
 func fill(cls string, rng *rand.Rand, a, b []float32, hot int) {
 	n := len(a)
@@ -343,6 +343,9 @@ func fill(cls string, rng *rand.Rand, a, b []float32, hot int) {
 			a[i], b[i] = float32(rng.NormFloat64()), float32(rng.NormFloat64())
 		case "onehot":
 			a[i], b[i] = 0, 1
+		case "parallel": // b = c * a: the cosine distance is 0 up to rounding - on either side of 0
+			a[i] = float32(rng.NormFloat64())
+			b[i] = a[i]
 		case "mixed":
 			switch rng.Intn(4) {
 			case 0:
@@ -368,6 +371,12 @@ func fill(cls string, rng *rand.Rand, a, b []float32, hot int) {
 	}
 	if cls == "onehot" {
 		a[hot] = 3
+	}
+	if cls == "parallel" {
+		c := []float32{3, 0.3, 7, 1.7, -3, 11}[rng.Intn(6)]
+		for i := range b {
+			b[i] = float32(c * a[i])
+		}
 	}
 }
 
@@ -564,7 +573,7 @@ func child(args []string) {
 						if !sameBits(d1, d2) && !(within(r, d1) && within(r, d2)) {
 							addFail("Asymmetric", cls, pl.name, fmt.Sprintf("len=%d: d(a,b)=%v d(b,a)=%v", n, d1, d2))
 						}
-						if okK && (d1 < 0 || (d1 == 0 && math.Signbit(float64(d1)) && false)) {
+						if d1 < 0 {
 							addFail("Negative", cls, pl.name, fmt.Sprintf("len=%d: Distance returns %v", n, d1))
 						}
 						// self distance: b := a (copied into b's placement, so that both addresses stay as placed)
